@@ -542,9 +542,15 @@ func lockingHistory(r *Rng, st *Stats, mask, focus string, blocks int, ci int) (
 		}
 	}
 
+	// some histories put more than 64 unlocks into one maturity bucket, another bucket right behind it, and
+	// let both mature in the same block
+	bulkAt := -1
+	if r.Chance(12) && blocks > 6 {
+		bulkAt = 2 + r.Intn(blocks/2)
+	}
 	for b := 0; b < blocks; b++ {
 		now = now.Add(time.Duration(1+r.Intn(20)) * time.Second)
-		if r.Chance(10) {
+		if r.Chance(10) || (bulkAt >= 0 && b == bulkAt+2) {
 			now = now.Add(p.UnlockDuration)
 		}
 		if r.Chance(5) {
@@ -750,22 +756,48 @@ func lockingHistory(r *Rng, st *Stats, mask, focus string, blocks int, ci int) (
 			var ur []urec
 			var uids []uint64
 			pre := dumpLockingVals(e)
+			bulkV, bulkT := -1, -1
+			if b == bulkAt {
+				for vi := 1; vi < len(vals) && bulkV < 0; vi++ {
+					for ti, t := range tokens {
+						if created[vi] && pre[string(vals[vi].Addr.Bytes())].Locking.AmountOf(lockingtypes.TokenDenom(t)).BigInt().Cmp(big.NewInt(1000)) > 0 {
+							bulkV, bulkT = vi, ti
+							break
+						}
+					}
+				}
+				if bulkV >= 0 {
+					nu = 64 + r.Intn(16)
+					st.Count("bulk-unlock-bucket")
+				}
+			}
+			if bulkAt >= 0 && b == bulkAt+1 && nu == 0 {
+				nu = 1 + r.Intn(2)
+			}
 			for i := 0; i < nu; i++ {
 				vi := 1 + r.Intn(len(vals)-1)
+				if bulkV >= 0 {
+					vi = bulkV
+				}
 				if !created[vi] && !r.Chance(2) {
 					continue
 				}
 				t := tokens[r.Intn(len(tokens))]
+				if bulkV >= 0 {
+					t = tokens[bulkT]
+				}
 				var a *big.Int
 				held := pre[string(vals[vi].Addr.Bytes())].Locking.AmountOf(lockingtypes.TokenDenom(t)).BigInt()
-				switch r.Intn(5) {
-				case 0:
+				switch x := r.Intn(5); {
+				case bulkV >= 0:
+					a = big.NewInt(int64(1 + x))
+				case x == 0:
 					a = big.NewInt(0)
-				case 1:
+				case x == 1:
 					a = new(big.Int).Set(held)
-				case 2:
+				case x == 2:
 					a = new(big.Int).Add(held, big.NewInt(int64(1+r.Intn(5))))
-				case 3:
+				case x == 3:
 					a = new(big.Int).Rsh(held, uint(1+r.Intn(3)))
 				default:
 					a = genAmount(r)
